@@ -6,20 +6,28 @@ from tools.harness import sqlexec as X
 ID = 'C06'
 TARGETS = ['MindsVerif.Props.C06']
 THEOREMS = ['MindsVerif.Props.C06.' + n for n in (
-    'C06_partial', 'C06_partial_norm', 'C06_nested_partial', 'C06_ddl_column', 'C06_ddl_contents', 'C06_dml_partial', 'C06_join_kind', 'C06_join_spelling', 'C06_not_rewrite',
-    'C06_order_key', 'C06_alias', 'C06_window_key', 'C06_grouping', 'C06_regroup_harmless',
+    'C06', 'C06_norm', 'C06_nested', 'C06_dml', 'C06_ddl_column', 'C06_ddl_contents', 'C06_not_rewrite_all', 'C06_join_spelling',
+    'C06_order_key', 'C06_window_key', 'C06_alias', 'C06_grouping', 'C06_regroup_harmless', 'C06_witness_8',
+    'C06_partial', 'C06_partial_norm', 'C06_nested_partial', 'C06_dml_partial', 'C06_join_kind', 'C06_not_rewrite',
     'C06_regress_1', 'C06_regress_2', 'C06_regress_3', 'C06_regress_4', 'C06_regress_5', 'C06_regress_5b', 'C06_regress_6',
-    'C06_regress_7', 'C06_regress_9', 'C06_witness_8',
+    'C06_regress_7', 'C06_regress_9',
     'phi6_compatible', 'phi6_ids', 'phi6_flip', 'phi6_join_spellings', 'phi6_join_probe')]
 ASSUME = [
-    'Render.saNorm / saStmt / SaParen.saParens are hand models of SqlalchemyRender + the SQLAlchemy compiler on the typed fragment; '
-    'tie = correspondence streams render-expr / join / order-key / label of this run plus the kernel-checked pins phi6_* on data '
-    'regenerated from the live objects (_PRECEDENCE, __invert__ flip table, join_clause alternatives, probed join keywords)',
+    'Render.saNorm / saRender / saStmt / saSpec / SaParen.saParens are hand models of SqlalchemyRender.get_string (+ the SQLAlchemy '
+    'compiler) on the typed fragment; tie = the correspondence streams of this run (render-expr, render-optree, render-join, '
+    'render-join-chain, render-order-key, render-window-key, render-label, render-ddl-column, render-select-skeleton) plus the '
+    'kernel-checked pins phi6_* on data regenerated from the live objects (_PRECEDENCE, the __invert__ flip table read through the '
+    'renderer, the renderer\'s own operand groupings, join_clause alternatives, probed join keywords)',
+    'Render.eval / evalSelect / evalGSelect / evalFrom / exec / keyLe are a specification reading of SQL (3VL, joins, GROUP BY, ORDER BY '
+    'NULLS, LIMIT/OFFSET, DML); compared with sqlite3 on every run (streams semantics-eval, semantics-query); set operations, '
+    'sub-query slots and the CREATE TABLE column model (admits / insertAll) are not in those two streams',
     'EngineSqlite.table is a reading of the sqlite documentation (trusted); validated in every run by executing the fully '
-    'parenthesised original and the rendered text of every generated expression in sqlite3',
-    'the SQL semantics Render.evalQuery / exec is a specification reading (3VL, joins, ORDER BY NULLS, set operations)',
-    'window functions, CTEs, sub-queries, GROUP BY/HAVING, CASE, CAST, functions, INSERT…SELECT, CREATE/DROP TABLE and the mysql / '
-    'postgres renderings are covered by the execution probe only (sqlite3 as reference engine), not by a theorem',
+    'parenthesised original and the rendered text of every generated expression / operator tree in sqlite3',
+    'the meaning theorems are unconditional on the typed fragment; outside it -- correlated sub-queries, CTEs, window functions, '
+    'functions, string values, INSERT…SELECT, DROP TABLE, the mysql / postgres renderings -- only the execution probe applies '
+    '(sqlite3 as reference engine)',
+    'okE (driver flag mod) only delimits where the printed text of the model is compared with SQLAlchemy\'s: NOT directly over a unary '
+    'minus of a Boolean-typed operand prints an extra pair of parentheses',
 ]
 
 JOIN_RE = re.compile(r'\b((?:LEFT|RIGHT|FULL)\s+OUTER\s+JOIN|(?:LEFT|RIGHT|FULL|INNER|CROSS|OUTER)\s+JOIN|JOIN)\b', re.I)
@@ -202,6 +210,144 @@ def value_of(conn, sql, env):
         return ('ok', conn.execute('SELECT %s FROM (SELECT ? AS c0, ? AS c1, ? AS c2)' % sql, env).fetchone()[0])
     except sqlite3.Error as e:
         return ('err', str(e)[:80])
+
+
+# ------------------------------------------------------------------------------------ the specification semantics vs sqlite3
+NAMES4 = ('t.a', 't.b', 'u.a', 'u.c')
+SEM_JOINS = ('JOIN', 'INNER JOIN', 'CROSS JOIN', 'LEFT JOIN', 'LEFT OUTER JOIN', 'RIGHT JOIN', 'RIGHT OUTER JOIN', 'FULL JOIN',
+             'FULL OUTER JOIN')
+
+
+def named_sql(t, names):
+    """expr_sql with the columns spelled by `names`"""
+    return re.sub(r'\bc(\d)\b', lambda m: names[int(m.group(1))], expr_sql(t))
+
+
+def gen_expr_cols(rng, depth, ncols):
+    t = gen_expr(rng, depth)
+
+    def remap(x):
+        if not isinstance(x, tuple):
+            return x
+        if x[0] == 'c':
+            return ('c', rng.randrange(ncols))
+        return tuple(remap(y) for y in x)
+    return remap(t)
+
+
+def rows_txt(rows):
+    return '/'.join(','.join('n' if v is None else str(v) for v in r) for r in rows) if rows else '-'
+
+
+def parse_rows(s):
+    return [] if s.strip() == '-' else [tuple(None if v == 'n' else int(v) for v in r.split(',')) for r in s.strip().split('/')]
+
+
+def sem_cases(rng, n):
+    """(driver line, sqlite statements, how to compare) for the query-level semantics: joins of all kinds with ON,
+    WHERE, DISTINCT, ORDER BY direction / NULLS, LIMIT / OFFSET; GROUP BY + aggregates + HAVING; INSERT / UPDATE / DELETE"""
+    vals = (None, 0, 1, 2)
+    out = []
+
+    def table(k):
+        return [tuple(rng.choice(vals) for _ in range(2)) for _ in range(rng.randint(0, k))]
+    for i in range(n):
+        t, u = table(3), table(3)
+        setup = [('INSERT INTO t VALUES (?, ?)', t), ('INSERT INTO u VALUES (?, ?)', u)]
+        db = '%s %s' % (rows_txt(t), rows_txt(u))
+        kind = i % 3
+        if kind == 0:
+            shape = rng.choice(('t', 'i', 'j', 'j', 'j'))
+            if shape == 't':
+                names, fr_l, fr_s = NAMES4[:2], 't', 't'
+            elif shape == 'i':
+                names, fr_l, fr_s = NAMES4, 'i', 't, u'
+            else:
+                jt = rng.choice(SEM_JOINS)
+                names = NAMES4
+                if rng.random() < 0.2:
+                    fr_l, fr_s = 'j %s -' % jt.replace(' ', '_'), 't %s u' % jt
+                else:
+                    on = gen_expr_cols(rng, rng.randint(1, 2), 4)
+                    fr_l, fr_s = 'j %s %s' % (jt.replace(' ', '_'), expr_line(on)), 't %s u ON %s' % (jt, named_sql(on, names))
+            w = gen_expr_cols(rng, rng.randint(1, 2), len(names)) if rng.random() < 0.5 else None
+            distinct = rng.random() < 0.25
+            keys = []
+            for c in rng.sample(range(len(names)), rng.randint(0, 2)):
+                keys.append((c, rng.choice(('', 'ASC', 'DESC')), rng.choice(('', 'NULLS FIRST', 'NULLS LAST'))))
+            keys += [(c, '', '') for c in range(len(names)) if c not in [k[0] for k in keys]]     # total order
+            lim = rng.randint(0, 3) if rng.random() < 0.3 else None
+            off = rng.randint(0, 2) if lim is not None and rng.random() < 0.5 else None
+            line = 'QS %s ; %s ; %s ; %d ; %s ; %s ; %s' % (
+                db, fr_l, expr_line(w) if w else '-', distinct,
+                ' '.join('%d:%s:%s' % (c, d or '-', n_.replace(' ', '_') or '-') for c, d, n_ in keys),
+                lim if lim is not None else '-', off if off is not None else '-')
+            sql = 'SELECT %s%s FROM %s%s ORDER BY %s%s%s' % (
+                'DISTINCT ' if distinct else '', ', '.join(names), fr_s, ' WHERE ' + named_sql(w, names) if w else '',
+                ', '.join('%s%s%s' % (names[c], ' ' + d if d else '', ' ' + n_ if n_ else '') for c, d, n_ in keys),
+                ' LIMIT %d' % lim if lim is not None else '', ' OFFSET %d' % off if off is not None else '')
+            out.append((line, setup, sql, 'list'))
+        elif kind == 1:
+            names = NAMES4[:2]
+            w = gen_expr_cols(rng, 1, 2) if rng.random() < 0.4 else None
+            grp = rng.choice(([], [0], [1], [0, 1], [0]))
+            tg = ['p:%d' % c for c in grp]
+            tsql = [names[c] for c in grp]
+            for _ in range(rng.randint(1, 2)):
+                if rng.random() < 0.3:
+                    tg.append('cs')
+                    tsql.append('count(*)')
+                else:
+                    f, c = rng.choice(('count', 'sum', 'min', 'max')), rng.randrange(2)
+                    tg.append('a:%s:%d' % (f, c))
+                    tsql.append('%s(%s)' % (f, names[c]))
+            hv_l, hv_s = '-', ''
+            if rng.random() < 0.5:
+                f, c = rng.choice(('cs', 'count', 'sum', 'min', 'max')), rng.randrange(2)
+                cmp_, k = rng.choice(('=', '!=', '<', '<=', '>', '>=')), rng.randint(0, 3)
+                hv_l = '%s %s %d' % ('cs' if f == 'cs' else 'a:%s:%d' % (f, c), cmp_, k)
+                hv_s = ' HAVING %s %s %d' % ('count(*)' if f == 'cs' else '%s(%s)' % (f, names[c]), cmp_, k)
+            line = 'QG %s ; %s ; %s ; %s ; %s' % (db, expr_line(w) if w else '-', ' '.join(map(str, grp)) or '-', ' '.join(tg), hv_l)
+            sql = 'SELECT %s FROM t%s%s%s' % (', '.join(tsql), ' WHERE ' + named_sql(w, names) if w else '',
+                                             ' GROUP BY ' + ', '.join(names[c] for c in grp) if grp else '', hv_s)
+            out.append((line, setup, sql, 'bag'))
+        else:
+            names = ('a', 'b')
+            k = rng.choice(('ins', 'upd', 'del'))
+            if k == 'ins':
+                cols = rng.choice(([0, 1], [1, 0], [0], [1]))
+                rows = [tuple(rng.choice(vals) for _ in cols) for _ in range(rng.randint(1, 2))]
+                line = 'QX %s ; ins %s %s' % (db, ','.join(map(str, cols)), rows_txt(rows))
+                sql = 'INSERT INTO t (%s) VALUES %s' % (', '.join(names[c] for c in cols), ', '.join(
+                    '(%s)' % ', '.join('NULL' if v is None else str(v) for v in r) for r in rows))
+            else:
+                w = gen_expr_cols(rng, rng.randint(1, 2), 2) if rng.random() < 0.8 else None
+                if k == 'upd':
+                    c, e = rng.randrange(2), gen_expr_cols(rng, rng.randint(0, 2), 2)
+                    line = 'QX %s ; upd %d %s ; %s' % (db, c, expr_line(e), expr_line(w) if w else '-')
+                    sql = 'UPDATE t SET %s = %s%s' % (names[c], named_sql(e, names), ' WHERE ' + named_sql(w, names) if w else '')
+                else:
+                    line = 'QX %s ; del ; %s' % (db, expr_line(w) if w else '-')
+                    sql = 'DELETE FROM t%s' % (' WHERE ' + named_sql(w, names) if w else '')
+            out.append((line, setup, sql, 'table'))
+    return out
+
+
+def sem_run(setup, sql, how):
+    c = sqlite3.connect(':memory:')
+    try:
+        c.execute('CREATE TABLE t (a INTEGER, b INTEGER)')
+        c.execute('CREATE TABLE u (a INTEGER, c INTEGER)')
+        for stmt, rows in setup:
+            c.executemany(stmt, rows)
+        if how == 'table':
+            c.execute(sql)
+            return [tuple(r) for r in c.execute('SELECT a, b FROM t')]
+        return [tuple(r) for r in c.execute(sql)]
+    except sqlite3.Error as e:
+        return 'err: %s' % str(e)[:80]
+    finally:
+        c.close()
 
 
 # ------------------------------------------------------------------------------------ known-finding machinery
@@ -720,6 +866,16 @@ def run(chk):
     lines += ['D %d %s %d' % x for x in dl]
     cl = list(itertools.product((0, 1), repeat=6))
     lines += ['C ' + ' '.join(map(str, x)) for x in cl]
+    # the specification semantics itself, compared with sqlite3: expression values, then query / DML results
+    srng = common.rng_for(chk.seed, 'C06/semantics')
+    ENVS4 = [e + (srng.choice((None, 0, 1, 2)),) for e in ENVS]
+    vl = []
+    for src, t in trees:
+        for env in (ENVS4 if (src == 'exh' or deep) else srng.sample(ENVS4, 2)):
+            vl.append((t, env))
+    lines += ['V %s %s' % (' '.join('n' if v is None else str(v) for v in env), expr_line(t)) for t, env in vl]
+    ql = sem_cases(srng, 30000 if deep else 1800)
+    lines += [x[0] for x in ql]
     outs = None
     try:
         outs = common.lean_run('Render', lines)
@@ -942,6 +1098,40 @@ def run(chk):
                 first = first or dict(clauses=dict(zip(('where', 'group_by', 'having', 'order_by', 'limit', 'offset'), bits)),
                                       model=o.strip(), impl=got, rendered=r)
         chk.corr_result('render-select-skeleton', len(cl), div, first)
+        base += len(cl)
+        # --- semantics: `Render.eval` vs sqlite3 on the same expression and values
+        div, first = 0, None
+        sd = collections.Counter()
+        for (t, env), o in zip(vl, outs[base:]):
+            want = value_of(conn, expr_sql(t), env[:3])
+            if want[0] != 'ok' or isinstance(want[1], float):
+                sd['skipped'] += 1
+                continue
+            got = None if o.strip() == 'n' else int(o)
+            sd['null' if want[1] is None else 'value'] += 1
+            if got != want[1]:
+                div += 1
+                first = first or dict(expr=expr_sql(t), env=env, model=o.strip(), sqlite=want[1])
+        chk.corr_result('semantics-eval', len(vl), div, first, dict(sd))
+        base += len(vl)
+        # --- semantics: evalSelect (joins, WHERE, DISTINCT, ORDER BY, LIMIT/OFFSET), evalGSelect, exec vs sqlite3
+        div, first = 0, None
+        sd = collections.Counter()
+        for (line, setup, sql, how), o in zip(ql, outs[base:]):
+            want = sem_run(setup, sql, how)
+            if isinstance(want, str) or any(isinstance(v, float) for r in want for v in r):
+                sd['skipped:' + line.split()[0]] += 1
+                continue
+            try:
+                got = parse_rows(o)
+            except ValueError:
+                got = o
+            ok = got == want if how == 'list' else (isinstance(got, list) and sorted(got, key=X.skey) == sorted(want, key=X.skey))
+            sd[line.split()[0] + ('/rows' if want else '/empty')] += 1
+            if not ok:
+                div += 1
+                first = first or dict(line=line, sql=sql, tables=[s_[1] for s_ in setup], model=o.strip(), sqlite=want)
+        chk.corr_result('semantics-query', len(ql), div, first, dict(sd))
 
     # ---------------------------------------------------------------- impl-level probe: execution
     prng = common.rng_for(chk.seed, 'C06/probe')
@@ -1016,7 +1206,9 @@ def run(chk):
     chk.samples.append(dict(generated=dict(pdist)))
     for f in chk.failures[:2]:
         chk.samples.append(dict(failure=f['desc'][:200], rendered=f.get('rendered'), kf=f.get('kf')))
-    chk.samples.append(dict(theorem='C06_partial : okQ q = true → evalQuery env db (saNorm q) = evalQuery env db q   (all env, db, q)'))
+    chk.samples.append(dict(theorem='C06 : ∀ env db q, evalQuery env db (saRender q) = evalQuery env db q'))
+    chk.samples.append(dict(theorem='C06_nested : ∀ env db n, evalNested env db (saRenderN n) = evalNested env db n'))
+    chk.samples.append(dict(theorem='C06_dml : ∀ env db s, exec env db (saStmt s) = exec env db s;  C06_ddl_contents : insertAll (cols.map saSpec) rows new = insertAll (cols.map srcSpec) rows new'))
     chk.samples.append(dict(theorem='C06_grouping : inFragment F e → saOk π e → parse sqliteP (print (saParens π e)) = some (saParens π e) ∧ strip (saParens π e) = strip e'))
     return chk.finish(assumptions=ASSUME, extra=dict(probe=dict(P.stats), generated=dict(pdist)))
 
